@@ -217,4 +217,4 @@ Print Assumptions store_tree_meets_collapse_hypotheses.
 Print Assumptions nosolution_tree_meets_collapse_hypotheses.
 Print Assumptions nosolution_tree_collapse.
 Print Assumptions nosolution_tree_no_pair_from_store.
-Print Assumptions c09_solver_example.
+Print Assumptions existing_unfold.
